@@ -113,7 +113,10 @@ ToReal(v) == IF IsNull(v) THEN Null
              ELSE IF v.b = 0 THEN RealV(v.i, 1)
              ELSE IF v.b = 3 THEN (IF v.i = 2 THEN P53b ELSE IF v.i \in {0, 1} THEN P53 ELSE [t |-> "unk"])    \* 2^53 + 1 is not a REAL: it reads as 2^53
              ELSE [t |-> "unk"]
-JoinedRow(l) == LET r == RowOf(IF tdef = "udef" THEN "vdef" ELSE "plain", l) IN IF tdef = "numjoin" THEN <<r[1], r[2], ToReal(r[3])>> ELSE r
+\* Table variant "ukdef": the joined table's KEY column has a DEFAULT ('a'): every line of the joined file is a row of it -- also an empty line or one that matches
+\* nothing -- and takes part in the join under that key
+JoinedRow(l) == IF tdef = "ukdef" THEN (LET r == RowOf("plain", l) IN <<TRUE, IF IsNull(r[2]) THEN TextV(<<97>>) ELSE r[2], r[3]>>)
+                ELSE LET r == RowOf(IF tdef = "udef" THEN "vdef" ELSE "plain", l) IN IF tdef = "numjoin" THEN <<r[1], r[2], ToReal(r[3])>> ELSE r
 JKeyMain(env) == IF tdef = "numjoin" THEN env["v"] ELSE env["k"]
 JKeyJoined(s) == IF tdef = "numjoin" THEN s[2] ELSE s[1]
 
